@@ -5,12 +5,16 @@
     event is already queued.  Hence the state "a job waits, nothing holds anything, no nomination
     queued" — the only way a feasible job can wait forever — is unreachable.
 
-    NOT PROVED here (kept visible, reached by the correspondence run and the implementation's
-    quiescence oracle only):
-    (1) holder => the job is with an executor or its completion event is queued;
-    (2) a termination measure for finite workflows (number of events processed is bounded). *)
+    Together with [C09_holder_is_running] (a job that holds units is with an executor or its
+    completion event is queued) this gives [C09_no_stuck_waiting]: in a state where the event
+    queue is empty and no job is with an executor, no job waits for resources.
+
+    NOT PROVED here (kept visible; reached by the correspondence run and the implementation's
+    quiescence oracle only): a termination measure for finite workflows (the number of events
+    processed is bounded by a function of the number of jobs created). *)
 From Coq Require Import List ZArith Bool Arith Lia.
-From RV Require Import Model.JobMachine Proofs.JobBase Proofs.JobRes Proofs.JobRes3 Proofs.JobWake Proofs.JobWake2.
+From RV Require Import Model.JobMachine Proofs.JobBase Proofs.JobRes Proofs.JobRes3 Proofs.JobWake Proofs.JobWake2
+  Proofs.JobLive Proofs.JobLive4.
 Import ListNotations.
 Open Scope list_scope.
 
@@ -22,6 +26,38 @@ Theorem C09_waiting_has_waker_partial : forall c ops,
   has_holder (run c ops) = true \/ exec_ids (queue (run c ops)) <> [].
 Proof.
   intros c ops H1 H2 H3 H4 H5 H6. exact (proj1 (wake_run c H1 H2 H3 H4 ops H5 H6)).
+Qed.
+
+Theorem C09_holder_is_running : forall c ops j x,
+  release_if_holds (vr c) = true -> (forall r, (0 <= limit_of c r)%Z) -> Forall wf_op ops ->
+  getj (run c ops) j = Some x -> jholds x = true ->
+  jphase x = PSubmitted \/ In (EvDone j) (queue (run c ops)) \/ exists e, In (EvReject j e) (queue (run c ops)).
+Proof.
+  intros c ops j x H1 H2 H3 Hx Hh. destruct (live_run c H1 H2 ops H3) as [L _].
+  apply (l_hold _ _ L j x Hx Hh). discriminate.
+Qed.
+
+(** Deadlock freedom of the limits queue: event queue empty and nothing with an executor
+    => nobody waits for resources. *)
+Theorem C09_no_stuck_waiting : forall c ops,
+  release_if_holds (vr c) = true -> recheck_on_skip (vr c) = true -> dryrun c = false ->
+  (forall r, (0 <= limit_of c r)%Z) ->
+  Forall wf_op ops -> Forall (feas_op c) ops ->
+  queue (run c ops) = [] ->
+  (forall j x, getj (run c ops) j = Some x -> jphase x <> PSubmitted) ->
+  waiting (run c ops) = [].
+Proof.
+  intros c ops H1 H2 H3 H4 H5 H6 Hq Hs.
+  destruct (waiting (run c ops)) as [|w ws] eqn:Ew; [reflexivity|exfalso].
+  assert (Hne : waiting (run c ops) <> []) by (rewrite Ew; discriminate).
+  destruct (C09_waiting_has_waker_partial c ops H1 H2 H3 H4 H5 H6 Hne) as [Hh|Hx].
+  - unfold has_holder in Hh. apply existsb_exists in Hh. destruct Hh as (x & Hin & Hh).
+    apply In_nth_error in Hin. destruct Hin as (j & Hj).
+    destruct (C09_holder_is_running c ops j x H1 H4 H5 Hj Hh) as [P|[P|(e & P)]].
+    + exact (Hs j x Hj P).
+    + rewrite Hq in P. exact P.
+    + rewrite Hq in P. exact P.
+  - apply Hx. rewrite Hq. reflexivity.
 Qed.
 
 (** Without the re-check on the collapse / cache-hit early returns (the code as shipped, with the
@@ -60,4 +96,5 @@ Example C09_witness_fixed :
 Proof. vm_compute. split; reflexivity. Qed.
 
 Print Assumptions C09_waiting_has_waker_partial.
+Print Assumptions C09_no_stuck_waiting.
 Print Assumptions C09_refuted_without_recheck.
